@@ -286,7 +286,10 @@ func c14sys(sc *sim.Scenario, env *sim.Env) *sim.Violation {
 	}
 	lines := splitLines(ss.All())
 	if ss.Plan == sim.SinkOK {
-		if len(lines) != len(recs) {
+		// one line per instruction that executes; whether the instruction AT the target (which is
+		// never executed) also gets a line is not fixed by the property
+		okCount := len(lines) == len(recs) || (endedOnTarget && len(lines) == len(recs)-1)
+		if !okCount {
 			return &sim.Violation{Oracle: "trace_line_count", Step: -1, Msg: fmt.Sprintf("%d trace lines for %d instructions about to execute (incl. the one at the target)", len(lines), len(recs))}
 		}
 	} else {
